@@ -1,20 +1,53 @@
 #!/usr/bin/env python3
-"""Print the sensitivity tables (markdown) from tools/mutants-results.json and seeded/*/meta.json."""
-import json, os, glob
+"""Print the sensitivity tables (markdown) from tools/mutants-results.json and seeded/*/meta.json.
+   tools/sensitivity.py                 print them
+   tools/sensitivity.py --update-design replace the block between the SENSITIVITY markers of DESIGN.md"""
+import glob
+import json
+import os
+import sys
+
 VERIF = os.path.dirname(os.path.dirname(os.path.abspath(__file__)))
-res = json.load(open(os.path.join(VERIF, "tools", "mutants-results.json")))
-print("### Hand-written mutants (`tools/mutants.py`; quick tier)\n")
-print("| mutant | suite | verdict per check |")
-print("|---|---|---|")
-for mid in sorted(res):
-    r = res[mid]
-    v = ", ".join(f"{p}: {x}" for p, x in sorted(r["props"].items()))
-    print(f"| {mid} | {r.get('suite') or '-'} | {v} |")
-print("\n### Independently seeded changes (`seeded/<id>/`; quick tier of the property they were written against)\n")
-print("| id | what it needs to manifest (first lines of the author's notes) | verdict |")
-print("|---|---|---|")
-for m in sorted(glob.glob(os.path.join(VERIF, "seeded", "*", "meta.json"))):
-    d = json.load(open(m))
-    note = " ".join(d.get("needs_to_manifest", "").split())[:260].replace("|", "/")
-    v = ", ".join(f"{p}: {x['verdict']}" for p, x in sorted(d.get("checks_run", {}).items()))
-    print(f"| {d['id']} | {note} | {v} |")
+
+
+def tables():
+    out = []
+    res = json.load(open(os.path.join(VERIF, "tools", "mutants-results.json")))
+    out.append("### Hand-written mutants (`tools/mutants.py`; quick tier of the checks named for each)\n")
+    out.append("| mutant | suite | verdict per check |")
+    out.append("|---|---|---|")
+    for mid in sorted(res):
+        r = res[mid]
+        v = ", ".join(f"{p}: {x}" for p, x in sorted(r["props"].items()))
+        out.append(f"| {mid} | {r.get('suite') or '-'} | {v} |")
+    out.append("\n### Independently seeded changes (`seeded/<id>/`; quick tier, seed 1, of the property each was written against)\n")
+    out.append("Ids: `-1`/`-2` first round, `-3`/`-4` second, `-5`/`-6` third, `-7` fourth. The second column is the head of the author's own notes.\n")
+    out.append("| id | what it is / what it needs to manifest | verdict |")
+    out.append("|---|---|---|")
+    n = caught = 0
+    for m in sorted(glob.glob(os.path.join(VERIF, "seeded", "*", "meta.json"))):
+        d = json.load(open(m))
+        note = " ".join(d.get("needs_to_manifest", "").replace("#", "").split())[:230].replace("|", "/")
+        v = ", ".join(f"{p}: {x['verdict']}" for p, x in sorted(d.get("checks_run", {}).items()))
+        n += 1
+        caught += all(x["verdict"] == "caught" for x in d.get("checks_run", {}).values()) and bool(d.get("checks_run"))
+        out.append(f"| {d['id']} | {note} | {v} |")
+    out.append(f"\n{caught} of {n} seeded changes caught by the quick tier of their own property (last `tools/seeded.py runall`).")
+    return "\n".join(out)
+
+
+def main():
+    t = tables()
+    if "--update-design" in sys.argv:
+        p = os.path.join(VERIF, "DESIGN.md")
+        s = open(p).read()
+        b, e = "<!-- SENSITIVITY:BEGIN -->", "<!-- SENSITIVITY:END -->"
+        assert b in s and e in s
+        s = s[:s.index(b) + len(b)] + "\n" + t + "\n" + s[s.index(e):]
+        open(p, "w").write(s)
+    else:
+        print(t)
+
+
+if __name__ == "__main__":
+    main()
